@@ -1446,9 +1446,9 @@ func init() {
 		})
 		// grammar-generated programs over the universe of -universe
 		if progs < 0 {
-			progs = 1500
+			progs = 1000
 			if c.thorough() {
-				progs = 20000
+				progs = 40000
 			}
 		}
 		if uni := universe; uni != "" && progs > 0 {
